@@ -214,8 +214,38 @@ def _collision_wallets(rng, tier):
                     yield "w_bypath xkey:%s %s" % (sx(xk), sx(pth)), "fp-collision-wallets" + ("-watch" if watch else "")
 
 
+def _deep_root_wallets(rng, tier):
+    """wallets restored from a NON-ROOT extended key (depth 1..5, arbitrary child number), looked up by paths whose
+    components are drawn from the key's own metadata (its child number, its depth) as well as other values, at every
+    position: what by_path does must not depend on what the wallet key says about itself"""
+    from .c09 import point, sec_c
+    for _ in range(4 if tier == "quick" else 60):
+        k = rng.randrange(1, N)
+        chain = bytes(rng.getrandbits(8) for _ in range(32))
+        depth = rng.choice([1, 2, 3, 5])
+        for watch in (False, True):
+            idx = rng.choice([0, 1, 7, 2 ** 31 - 1] + ([] if watch else [2 ** 31, 2 ** 31 + 44]))
+            fp = bytes(rng.getrandbits(8) for _ in range(4))
+            if watch:
+                x, y = point(k)
+                xk = common.xkey_string(0x0488B21E, depth, fp, idx, chain, sec_c(x, y))
+            else:
+                xk = common.xkey_string(0x0488ADE4, depth, fp, idx, chain, b"\x00" + k.to_bytes(32, "big"))
+
+            def comp(v):
+                return "%d'" % (v - 2 ** 31) if v >= 2 ** 31 else str(v)
+            own = [idx, depth]
+            other = [3, 11] + ([] if watch else [2 ** 31 + 2])
+            for ln in range(1, 6):
+                for _ in range(2 if tier == "quick" else 6):
+                    comps = [rng.choice(own if rng.random() < 0.6 else other) for _ in range(ln)]
+                    pth = ("M" if watch else "m") + "".join("/" + comp(c) for c in comps)
+                    yield "w_bypath xkey:%s %s" % (sx(xk), sx(pth)), "deep-root-wallet" + ("-watch" if watch else "")
+
+
 def cases(rng, tier):
     from . import extra
     yield from _cases_core(rng, tier)
     yield from _collision_wallets(rng, tier)
+    yield from _deep_root_wallets(rng, tier)
     yield from extra.cases_for('paths', rng, tier)
